@@ -13,7 +13,7 @@ import os
 
 import numpy as np
 
-from .. import core, motlutil, starutil as su
+from .. import core, motlsys, motlutil, starutil as su
 
 FIELDS14 = ["score", "subtomo_id", "tomo_id", "object_id", "x", "y", "z", "shift_x", "shift_y", "shift_z",
             "phi", "psi", "theta", "class"]
@@ -544,6 +544,9 @@ def case_from_tr(tr, U, gseed, variant, pre=None, hist=None, sidk=None):
 
 
 def replay(ctx, case):
+    if case.get("kind") == "mixed":
+        motlsys.run_mixed(ctx, "sg", [case])
+        return
     r = Runner(ctx, case["U"])
     if case["kind"] == "pair":
         r.run_case(case["first"])
@@ -682,3 +685,8 @@ def run(ctx):
             sizes1000 = [rng.randint(1, 12) for _ in range(1000)] + [rng.randint(13, 300) for _ in range(150)] + [300] * 6
         n = run_seeded(ctx, 8, sizes8, "u8") + run_seeded(ctx, 1000, sizes1000, "u1000")
         ctx.extra["seeded_lists"] = n
+    if want("mixed"):
+        # composition (DESIGN 9.4): the conversion as one step of mixed histories on one live list - pose operations,
+        # set operations, EM / STOPGAP / RELION round trips - judged by MotlSysTrace in scope "sg"
+        motlsys.run(ctx, "sg", ctx.pick(120, 2500))
+        ctx.extra["mixed_histories"] = ctx.pick(120, 2500)
